@@ -109,15 +109,18 @@ pub fn c06(o: &Opts) -> Outcome {
     // gzip members of length zero between real members (bgzip EOF blocks in concatenated files), FASTQ and FASTA
     {
         let recs: Vec<(String, Vec<u8>)> = (0..4).map(|i| (format!("q{}", i), (0..50 + i).map(|j| b"ACGT"[(i + j) % 4]).collect())).collect();
-        for fq in [true, false] {
+        for (fq, bgzf) in [(true, false), (false, false), (true, true), (false, true)] {
             let sc = Scratch::new("reader");
             let path = sc.path(if fq { "cat.fq.gz" } else { "cat.fa.gz" });
             let mut b = Vec::new();
             let ser = |r: &[(String, Vec<u8>)]| if fq { fastq_bytes(r) } else { fasta_bytes(r, 0, false) };
-            b.extend(gz(&ser(&recs[..2]))); b.extend(gz(b"")); b.extend(gz(&ser(&recs[2..]))); b.extend(gz(b""));
+            // ordinary members, or genuine bgzip blocks (extra field with the block size): `cat a.gz b.gz` of two bgzip outputs
+            let z = |d: &[u8]| if bgzf { bgzf_bytes(d) } else { gz(d) };
+            b.extend(z(&ser(&recs[..2]))); b.extend(z(b"")); b.extend(z(&ser(&recs[2..]))); b.extend(z(b""));
             std::fs::write(&path, b).unwrap();
             cases += 1;
-            if let Some(w) = check_file(&path, &recs, if fq { "fq-gz with empty members" } else { "fa-gz with empty members" }) { return Outcome { cases, witness: Some(w) }; }
+            let what = format!("{}-gz with empty members{}", if fq { "fq" } else { "fa" }, if bgzf { " (bgzip blocks)" } else { "" });
+            if let Some(w) = check_file(&path, &recs, &what) { return Outcome { cases, witness: Some(w) }; }
         }
     }
     // every documented file-name suffix, plain and gzipped, in directories whose names look like other suffixes
